@@ -176,6 +176,20 @@ def main(tier, replay=None):
             rp = json.load(fh)
         if rp.get("kind") == "recorded-move" and "chain" in rp:
             return moves_trace.replay(PID, rp, replay)
+        if rp.get("kind") == "zeroswap-case":
+            from harness.checks import zeroswap
+            zeroswap._CONST.update(rp["constants"])
+            work = common.tmpdir("c11z-")
+            try:
+                # the demanded result is recomputed by TLC for this one case
+                fails = zeroswap.replay_case(rp, work)
+            finally:
+                common.rmtree(work)
+            if fails:
+                print(f"VIOLATION property={PID} replay={replay}\n  {fails[:2]}")
+                return 1
+            print("replay: holds")
+            return 0
         fn = {"swap2": swap2_job, "quantis": quantis_job, "zeroL": zerol_job}[rp["observed"]["kind"]]
         ev = fn(tuple(rp["observed"]["args"]))
         work = common.tmpdir("c11r-")
@@ -191,6 +205,10 @@ def main(tier, replay=None):
         return 0
     work = common.tmpdir("c11-")
     try:
+        from harness.checks import zeroswap
+        zwork = os.path.join(work, "zs")
+        os.makedirs(zwork)
+        zeroswap.run(chk, PID, tier, zwork)
         moves_trace.run(chk, PID, tier, work)
         jobs2 = [(0, va, vb, edge, r) for va in (1, 2, 3) for vb in (1, 2, 3) for edge in (2, 3, 4) for r in (3, 4, 6)]
         ev2 = [e for e in common.pmap(swap2_job, jobs2) if e]
